@@ -551,7 +551,7 @@ class WordOfIndicesVariables(BaseVariableGroup):
         self.seq2vid={}
         if wordtype == 'combinations':
             gen = combinations(range(1, n+1), k)
-        elif wordtype == 'combinations_with_replacements':
+        elif wordtype == 'combinations_with_replacement':
             gen = combinations_with_replacement(range(1,n+1),k)
         elif wordtype == 'permutations':
             gen = permutations(range(1, n+1), k)
